@@ -1279,6 +1279,15 @@ where
     > {
         let agg_id = self.role_try_from(agg_id)?;
 
+        // The leader's share must be processed under the leader's ID and a helper's share under a
+        // helper's ID. (The ID is otherwise not bound to the leader's share when the type uses no
+        // joint randomness.)
+        if matches!(msg, Prio3InputShare::Leader { .. }) != (agg_id == 0) {
+            return Err(VdafError::Uncategorized(
+                "input share does not match the aggregator ID".into(),
+            ));
+        }
+
         let (measurement_share, proofs_share) = match msg {
             Prio3InputShare::Leader {
                 measurement_share,
